@@ -198,6 +198,8 @@ class Scenario:
         if c.get("result_reducers") is not None:
             kw["result_reducers"] = tasks.reducers(c["result_reducers"])
         # the machine's CPU count is an input of the reusable executor (its call queue has 2 * cpu_count() + 1 slots)
+        pe._USE_PSUTIL = bool(c.get("leak_after"))
+        esim.S.leak_after = c.get("leak_after")
         global _REAL_CPU_COUNT
         if _REAL_CPU_COUNT is None:
             _REAL_CPU_COUNT = ru.cpu_count
